@@ -10,7 +10,7 @@ import (
 func TestProp(t *testing.T) {
 	r := pbt.Start(t, "C17")
 	defer r.Finish()
-	r.Rule("a generated type system is non-trivial when it has at least one interface, one union, one input object with a default value, one deprecation and one custom directive; for the engine part additionally at least one generated partial __schema/__type query was answered exactly; distinct by SDL text (+ query texts)")
+	r.Rule("a generated type system is non-trivial when it has at least one interface, one union, one input object with a default value, one deprecation and one custom directive; for the engine part additionally at least one generated partial __schema/__type query was answered exactly; distinct by SDL text (+ query texts); a request history is non-trivial when two requests instantiate the same operation template with different includeDeprecated values and their answers differ")
 	r.Assume(
 		"gqlparser's LoadSchema reading of the generated SDL is the truth about the type system (default values compared as parsed values, strings by value)",
 		"operations are validated by gqlparser against the SDL plus the repo's own built-in definitions (printed through the exported API), and answered by a small reference introspection written for this check",
@@ -23,16 +23,19 @@ func TestProp(t *testing.T) {
 		"list-depth:4", "root:query-renamed", "root:mutation-renamed", "root:subscription", "kind:UNION", "scalar-specifiedBy",
 		"description:multi-line", "query:includeDeprecated-true", "query:includeDeprecated-false", "query:includeDeprecated-absent",
 		"query:fragments", "query:strictly-checked", "reuse:root-types-change-between-schemas",
+		"history:same-operation-different-answers", "history:same-operation-different-answers-with-requests-in-between",
+		"history:includeDeprecated-by-variable", "history:includeDeprecated-literal",
 	)
 	r.Regress(dispatch())
 	r.RunProbes(probes())
 	factsPart.Run(r)
 	enginePart.Run(r)
 	reusePart.Run(r)
+	historyPart.Run(r)
 }
 
 func TestReplay(t *testing.T) { pbt.StdReplay(t, "C17", dispatch()) }
 
 func dispatch() pbt.Dispatch {
-	return pbt.Dispatch{}.Add(factsPart.Name, factsPart.Handler()).Add(enginePart.Name, enginePart.Handler()).Add(reusePart.Name, reusePart.Handler()).WithProbes(probes())
+	return pbt.Dispatch{}.Add(factsPart.Name, factsPart.Handler()).Add(enginePart.Name, enginePart.Handler()).Add(reusePart.Name, reusePart.Handler()).Add(historyPart.Name, historyPart.Handler()).WithProbes(probes())
 }
